@@ -285,7 +285,8 @@ def RtCtx.feedFrom (c : RtCtx) : Nat → CState → List Nat → Nat → CState 
 
 def RtCtx.feed (c : RtCtx) (σ : CState) (chunk : List Nat) (pos : Nat) : CState × String × Nat :=
   let rest := chunk.drop pos
-  if c.needsEndCheck && rest.isEmpty then (σ, "OK", pos)
+  -- an empty chunk changes nothing: OK — except that a parser that has failed keeps saying so
+  if c.needsEndCheck && rest.isEmpty then (σ, if c.M.isFailState σ.state then "FAIL" else "OK", pos)
   else c.feedFrom (rest.length + 2) σ rest pos
 
 def RtCtx.endCall (c : RtCtx) (σ : CState) : CState × String :=
@@ -335,7 +336,7 @@ def RtCtx.initStore (c : RtCtx) (σ0 : CState) : CState :=
 
 /-- The start actions as `start()` runs them (a redirect or a yield ends `start()` with OK). -/
 def RtCtx.startTree (c : RtCtx) : CTree :=
-  let ctx : ArmCtx := { o := c.semOpts, x := 0, adv := 0,
+  let ctx : ArmCtx := { o := c.semOpts, x := 0, adv := 0, advBase := 0,
                         redispatch := fun st adv => .leaf (.ret "OK" st adv),
                         oosConst := fun st => .leaf (.ret "OK" st 0) }
   c.M.startActs.tree ctx c.M.start (fun st => .leaf (.ret "OK" st 0)) (fun st => .leaf (.ret "OK" st 0))
